@@ -2,7 +2,8 @@
    are mapped to the OCaml types; Z / positive / nat stay the extracted inductives). *)
 Require Extraction.
 Require Import ExtrOcamlBasic.
-From Amc Require Import GenPrelude Words VecModel SetModel.
+From Amc Require Import GenPrelude Words VecModel SetModel Swap2Model.
 Extraction Language OCaml.
 Extraction "../harness/ocaml/gen/vecmodel.ml" VecModel.step VecModel.describe VecModel.init_pool VecModel.mk_wrap.
 Extraction "../harness/ocaml/gen/setmodel.ml" SetModel.sstep SetModel.sdescribe SetModel.sinit SetModel.cmp_of.
+Extraction "../harness/ocaml/gen/swap2model.ml" Swap2Model.swap2x VecModel.b_size VecModel.b_capacity Swap2Model.obs_store.
